@@ -1430,24 +1430,136 @@ func c20AppLimitedAndMTU(c *Ctx) {
 			"in congestion avoidance an application-limited sender (more than half, but not the whole window in flight) must not grow the window")
 	})
 	c.Floor(R, "half-window comparisons in isCwndLimited", n, 1)
-	// SetMaxDatagramSize: the at-minimum test precedes the store of the new size
+	// SetMaxDatagramSize: once the new size is stored, every path to the return leaves the window at or above the
+	// two-packet minimum computed from the NEW size
 	s := c.fn(cg, "cubicSender", "SetMaxDatagramSize")
 	mds := c.fld(cg, "cubicSender", "maxDatagramSize")
 	minW := c.obj(cg, "cubicSender", "minCongestionWindow")
 	cw := c.fld(cg, "cubicSender", "congestionWindow")
-	var cmp ssa.Instruction
-	eachInstr(s, func(in ssa.Instruction) {
-		if bo, ok := in.(*ssa.BinOp); ok && bo.Op == token.EQL && Load(cw)(bo.X) && CallTo(minW, -1)(bo.Y) {
-			cmp = in
+	sizeStores := findInstrsLocal(s, StoresTo(mds))
+	c.Floor(R, "stores of maxDatagramSize in SetMaxDatagramSize", len(sizeStores), 1)
+	// minCongestionWindow() evaluated after the store of the new size
+	newMin := func(v ssa.Value) bool {
+		cl, ok := stripConv(v).(*ssa.Call)
+		if !ok || !CallTo(minW, -1)(cl) {
+			return false
 		}
-	})
-	c.Check(cmp != nil, R, "shape:SetMaxDatagramSize tests congestionWindow == minCongestionWindow()", c.P.Pos(s.Pos()), "a window pinned at the minimum follows the minimum")
-	if cmp != nil {
-		for _, st := range findInstrsLocal(s, StoresTo(mds)) {
-			c.Check(!instrReaches(st, cmp) && !instrReaches(st, stripConv(cmp.(*ssa.BinOp).Y).(ssa.Instruction)), R, "order:the at-minimum test uses the old datagram size", c.P.InstrPos(st),
-				"minCongestionWindow() is 2 × maxDatagramSize: evaluated after the store it is the NEW minimum, the test is never true on an increase and the window stays below two full-size packets")
+		for _, st := range sizeStores {
+			if !instrReaches(st, cl) || instrReaches(cl, st) {
+				return false
+			}
+		}
+		return true
+	}
+	loadCw := func(v ssa.Value) bool { return loadsPath(v, cw) }
+	reclamp := func(in ssa.Instruction) bool {
+		st, ok := in.(*ssa.Store)
+		if !ok || fieldOfAddress(st.Addr) != cw {
+			return false
+		}
+		if newMin(st.Val) {
+			return true
+		}
+		if cl, ok := stripConv(st.Val).(*ssa.Call); ok && builtinName(&cl.Call) == "max" && len(cl.Call.Args) == 2 {
+			a, b := cl.Call.Args[0], cl.Call.Args[1]
+			return (loadCw(a) && newMin(b)) || (loadCw(b) && newMin(a))
+		}
+		return false
+	}
+	for _, st := range sizeStores {
+		st := st
+		c.cut(R, "post:the window is at least the new two-packet minimum after an MTU increase", &Cut{Fn: s, Start: func(x ssa.Instruction) bool { return x == st }, Target: isReturn, Barrier: reclamp,
+			Edge: EdgeRel(Rel{Op: token.GEQ, X: loadCw, Y: newMin}, false)},
+			"minCongestionWindow() is 2 × maxDatagramSize: a window between the old and the new minimum must be raised, or it stays below two full-size packets")
+	}
+}
+
+// C11.9: in every built-in spec the presence of each frame type in the Initial flight is the same on every dial: a
+// randomised PING count has a lower bound of at least one, or can only be zero. The reference fingerprinter hashes the
+// set of frame types of the client's Initial packets, so a frame type that is present on some dials only makes the
+// fingerprint identifier differ between dials of the same built-in spec.
+func c11FramePresenceDeterministic(c *Ctx) {
+	const R = "C11.9"
+	f := c.fn("", "", "QUICID2Spec")
+	qid := c.named("", "QUICID")
+	tn := c.named("", "QUICRandomFrames")
+	minF := c.fld("", "QUICRandomFrames", "MinPING")
+	maxF := c.fld("", "QUICRandomFrames", "MaxPING")
+	caseOf := func(b *ssa.BasicBlock) string {
+		for d := b; d != nil && d.Idom() != nil; d = d.Idom() {
+			id := d.Idom()
+			ifi, ok := id.Instrs[len(id.Instrs)-1].(*ssa.If)
+			if !ok || id.Succs[0] != d {
+				continue
+			}
+			bo, ok := ifi.Cond.(*ssa.BinOp)
+			if !ok || bo.Op != token.EQL {
+				continue
+			}
+			for _, x := range []ssa.Value{bo.X, bo.Y} {
+				if u, ok := x.(*ssa.UnOp); ok && u.Op == token.MUL {
+					if g, ok := u.X.(*ssa.Global); ok && types.Identical(g.Type().(*types.Pointer).Elem(), qid.Type()) {
+						return g.Name()
+					}
+				}
+			}
+		}
+		return "?"
+	}
+	n := 0
+	perCase := map[string]int{}
+	for _, g := range withAnon(f) {
+		for _, b := range g.Blocks {
+			for _, in := range b.Instrs {
+				al, ok := in.(*ssa.Alloc)
+				if !ok || !types.Identical(al.Type().(*types.Pointer).Elem(), tn.Type()) {
+					continue
+				}
+				n++
+				lo, hi := int64(0), int64(0)
+				exact := true
+				if rs := al.Referrers(); rs != nil {
+					for _, r := range *rs {
+						fa, ok := r.(*ssa.FieldAddr)
+						if !ok {
+							continue
+						}
+						fld := fieldOfAddress(fa)
+						if fld != minF && fld != maxF {
+							continue
+						}
+						if frs := fa.Referrers(); frs != nil {
+							for _, fr := range *frs {
+								st, ok := fr.(*ssa.Store)
+								if !ok || st.Addr != ssa.Value(fa) {
+									continue
+								}
+								k, isK := stripConv(st.Val).(*ssa.Const)
+								if !isK || k.Value == nil {
+									exact = false
+									continue
+								}
+								v, _ := constant.Int64Val(k.Value)
+								if fld == minF {
+									lo = v
+								} else {
+									hi = v
+								}
+							}
+						}
+					}
+				}
+				name := caseOf(b)
+				perCase[name]++
+				key := fmt.Sprintf("presence:PING in the %s spec#%d", name, perCase[name])
+				// the count is drawn from [Min, Max) when Max > Min, and is Min otherwise
+				det := exact && (lo >= 1 || hi <= 1)
+				c.Check(det, R, key, c.P.InstrPos(in), fmt.Sprintf("MinPING=%d MaxPING=%d: the PING frame type is %s", lo, hi,
+					map[bool]string{true: "present on every dial or on none", false: "present on some dials and absent on others (count 0 is drawn with probability 1/(Max-Min)): the reference fingerprinter's identifier, which hashes the set of frame types, differs between dials"}[det]))
+			}
 		}
 	}
+	c.Floor(R, "QUICRandomFrames literals in QUICID2Spec", n, 4)
 }
 
 // C20.6: probe credit (numProbesToSend), which lets SendMode bypass the congestion window, is granted only by the
@@ -1836,6 +1948,172 @@ func c09CutsDrainedBeforeFinish(c *Ctx) {
 	}
 	c.cut(R, "finish-only-when-drained:"+funcName(f), &Cut{Fn: f, StartBlocks: starts, Target: finish, Barrier: invalidate, TrackFlags: true},
 		"scrambling is switched off and the ClientHello dropped from the write buffer only when every deferred cut seen valid has been handed out completely (otherwise its bytes are never sent: a hole in the CRYPTO stream)")
+}
+
+// C09.13: the scrambler's cut positions are computed only from positions findSNIAndECH actually found. The parser
+// reports "not found" as -1 and an SNI with an empty host name as length 0; a cut computed from the sentinel, or an
+// empty cut, is never handed out and the stream stalls with the ClientHello unsent. Also: the cut list is sorted with a
+// comparator that recognises an unused cut on either side (an unused first cut makes HasData report false forever).
+func c09CutsFromFoundPositions(c *Ctx) {
+	const R = "C09.13"
+	w := c.fn("", "initialCryptoStream", "Write")
+	find := c.obj("", "", "findSNIAndECH")
+	cutStart := c.fld("", "clientHelloCut", "start")
+	cutEnd := c.fld("", "clientHelloCut", "end")
+	constOf := func(v ssa.Value) (int64, bool) {
+		k, ok := stripConv(v).(*ssa.Const)
+		if !ok || k.Value == nil {
+			return 0, false
+		}
+		return constant.Int64Val(constant.ToInt(k.Value))
+	}
+	// does a dominating edge of b establish lo <= v ?
+	atLeast := func(b *ssa.BasicBlock, v ssa.Value, lo int64, neqOK int64, useNeq bool) bool {
+		for d := b; d != nil && d.Idom() != nil; d = d.Idom() {
+			id := d.Idom()
+			ifi, ok := id.Instrs[len(id.Instrs)-1].(*ssa.If)
+			if !ok || len(d.Preds) != 1 {
+				continue
+			}
+			for s := 0; s < 2; s++ {
+				if id.Succs[s] != d {
+					continue
+				}
+				bo, ok := ifi.Cond.(*ssa.BinOp)
+				if !ok || !isCmp(bo.Op) {
+					continue
+				}
+				op := bo.Op
+				x, y := bo.X, bo.Y
+				if stripConv(y) == v {
+					x, y = y, x
+					op = swapOp(op)
+				}
+				if stripConv(x) != v {
+					continue
+				}
+				k, isK := constOf(y)
+				if !isK {
+					continue
+				}
+				if s == 1 {
+					op = negOp(op)
+				}
+				switch op {
+				case token.GTR:
+					if k >= lo-1 {
+						return true
+					}
+				case token.GEQ:
+					if k >= lo {
+						return true
+					}
+				case token.EQL:
+					if k >= lo {
+						return true
+					}
+				case token.NEQ:
+					if useNeq && k == neqOK {
+						return true
+					}
+				}
+			}
+		}
+		return false
+	}
+	// the Extracts of findSNIAndECH's results that a value is computed from
+	var deps func(v ssa.Value, out map[int]ssa.Value, d int)
+	deps = func(v ssa.Value, out map[int]ssa.Value, d int) {
+		if d > 10 || v == nil {
+			return
+		}
+		switch x := v.(type) {
+		case *ssa.Extract:
+			if cl, ok := x.Tuple.(*ssa.Call); ok && calleeObj(&cl.Call) == find {
+				out[x.Index] = x
+			}
+		case *ssa.BinOp:
+			deps(x.X, out, d+1)
+			deps(x.Y, out, d+1)
+		case *ssa.Convert:
+			deps(x.X, out, d+1)
+		case *ssa.ChangeType:
+			deps(x.X, out, d+1)
+		case *ssa.Call:
+			if builtinName(&x.Call) != "" {
+				for _, a := range x.Call.Args {
+					deps(a, out, d+1)
+				}
+			}
+		case *ssa.Phi:
+			for _, e := range x.Edges {
+				deps(e, out, d+1)
+			}
+		}
+	}
+	n := 0
+	for _, in := range findInstrs(w, StoresTo(cutStart, cutEnd)) {
+		st := in.(*ssa.Store)
+		ex := map[int]ssa.Value{}
+		deps(st.Val, ex, 0)
+		if len(ex) == 0 {
+			continue
+		}
+		n++
+		fld := fieldOfAddress(st.Addr).Name()
+		for idx, v := range ex {
+			switch idx {
+			case 0, 2:
+				what := map[int]string{0: "sniPos", 2: "echPos"}[idx]
+				c.Check(atLeast(st.Block(), v, 0, -1, true), R, fmt.Sprintf("found:cut.%s computed from %s only when it was found#%d", fld, what, n), c.P.InstrPos(in),
+					"findSNIAndECH reports an absent extension as -1: a cut position computed from it is garbage (or the unused-cut marker in the first slot) and the ClientHello is never sent")
+			}
+		}
+		if v, ok := ex[1]; ok {
+			c.Check(atLeast(st.Block(), v, 1, 0, true), R, fmt.Sprintf("nonempty:SNI cut.%s only for a non-empty host name#%d", fld, n), c.P.InstrPos(in),
+				"an empty cut (start == end) is never handed out by PopCryptoFrame (n <= 0 returns nil) and never invalidated: the stream stalls")
+		}
+	}
+	c.Floor(R, "cut stores computed from findSNIAndECH results", n, 3)
+	// comparator of the sort
+	nCmp := 0
+	for _, a := range withAnon(w)[1:] {
+		if len(a.Params) != 2 {
+			continue
+		}
+		nCmp++
+		tested := map[*ssa.Parameter]bool{}
+		eachInstr(a, func(in ssa.Instruction) {
+			bo, ok := in.(*ssa.BinOp)
+			if !ok || (bo.Op != token.EQL && bo.Op != token.NEQ) {
+				return
+			}
+			for _, pair := range [][2]ssa.Value{{bo.X, bo.Y}, {bo.Y, bo.X}} {
+				k, isK := constOf(pair[1])
+				if !isK || k != -1 {
+					continue
+				}
+				if fl, base := loadedField(stripConv(pair[0])); fl == cutStart {
+					for _, p := range a.Params {
+						if base == ssa.Value(p) {
+							tested[p] = true
+						}
+						// a by-value struct parameter is spilled into a local first
+						if al, ok := base.(*ssa.Alloc); ok && al.Referrers() != nil {
+							for _, r := range *al.Referrers() {
+								if st, ok := r.(*ssa.Store); ok && st.Addr == ssa.Value(al) && st.Val == ssa.Value(p) {
+									tested[p] = true
+								}
+							}
+						}
+					}
+				}
+			}
+		})
+		c.Check(len(tested) == 2, R, "sort:the comparator recognises an unused cut on either side", c.P.Pos(a.Pos()),
+			"with only the second cut in use (ECH without SNI) a comparator that tests its first argument only leaves the unused cut in slot 0: HasData() then reports false forever")
+	}
+	c.Floor(R, "cut comparators in Write", nCmp, 1)
 }
 
 // C09.10: what planInitialFlight stores for sending is exactly what validateInitialFlight accepted.
